@@ -27,7 +27,7 @@ func runC09(cfg *vh.Config) error {
 	distinct := vh.Distinct{}
 	caseNo := 0
 	r := cfg.R
-	inputs := fmtInputs(cfg, "c09", cfg.Scale(1000, 25000), cfg.Scale(450, 12000), cfg.Scale(250, 8000))
+	inputs := fmtInputs(cfg, "c09", cfg.Scale(800, 25000), cfg.Scale(350, 12000), cfg.Scale(200, 8000))
 	for _, in := range inputs {
 		src := in.src
 		inS := fmt.Sprintf("%q", src)
